@@ -53,14 +53,14 @@ EXPR_ALL = ["hexupper", "bin", "oct", "dotfive", "onedot", "expneg", "stropen", 
             "slice3", "sliceall", "tuple", "tuple1", "tuple0", "tuplestar", "list", "list0", "set", "dict",
             "dict2", "dict0", "ifexp", "lambda0", "lambda1", "lambdadef", "lambdastar", "listcomp", "listcompif",
             "listcomp2", "setcomp", "dictcomp", "genexp", "fstr", "fstradd", "walrus"]
-CMT_ALL = ["x", ")", "(", "#", "'", "def"]
+CMT_ALL = ["x", ")", "(", "#", "'", "def", "<ff>", "<vt>", "<fs>", "<nel>", "<ls>"]
 
 
 def gen_constants(sim):
     return {
         "CtxOn": set(CTX_ALL), "ExprOn": set(EXPR_ALL),
         "ParenKinds": {"none", "root1", "root2", "kid1", "rootkid"},
-        "GapKinds": {"cmt", "nl", "cont", "cmtline", "blank"},
+        "GapKinds": {"cmt", "nl", "cont", "cmtline", "blank", "ffline"},
         "CmtTexts": set(CMT_ALL), "Styles": {"tight", "house", "wide"}, "MaxGaps": 2, "Sim": sim,
     }
 
@@ -698,10 +698,25 @@ def corpus_part(tier, verdict):
         for l, p in small:
             by.setdefault(l.split("/")[0], []).append((l, p))
         files = []
-        for label, n in (("rope", 12), ("ropetest", 8), ("stdlib", 30)):
+        for label, n in (("rope", 12), ("ropetest", 8), ("stdlib", 27)):
             pool = sorted(by.get(label, []))
             rnd.shuffle(pool)
             files.extend(pool[:n])
+        # always some files holding characters that str.splitlines takes for line ends (form feed ...)
+        odd = []
+        for l, p in sorted(small, key=lambda lp: os.path.getsize(lp[1])):
+            if (l, p) in files:
+                continue
+            try:
+                with open(p, "rb") as fh:
+                    data = fh.read()
+            except OSError:
+                continue
+            if any(ch in data for ch in (b"\x0c", b"\x0b", b"\x1c", b"\x1d", b"\x1e", b"\xc2\x85",
+                                          b"\xe2\x80\xa8", b"\xe2\x80\xa9")):
+                odd.append((l, p))
+        rnd.shuffle(odd)
+        files.extend(sorted(odd[:3]))
     out = common.scratch("c08_")
     stats = {"files": 0, "skipped_not_valid_python": 0, "nodes": 0, "accepted": 0, "rejected": 0,
              "file_level_failures": 0, "unannotated_nodes": 0, "tlc_states": 0}
